@@ -62,7 +62,15 @@ Qed.
    the loops read, angles of the reversed path GIVEN as the Snell images); the theorems below
    put the zipping, the indices, Path.reverse() / Interface.reverse() / the reversed
    RayGeometry, the unit strings, force_complex and the error branches inside the model, and
-   discharge the Snell hypothesis from the ray's own outgoing angles. *)
+   discharge the Snell hypothesis from the ray's own outgoing angles.
+
+   REPAIRED after the run-time tie (harness/ties/tie_C07.py) on two points where the model
+   misrepresented the code; the statements that changed say so:
+   (1) a fluid's transverse velocity is None (pm_vt : option, Path.velocities may hold None) and
+       reverse_transmission_reflection_for_path raises the TypeError of snell_angles(…, None, …)
+       BEFORE the per-interface helper checks the unit / the kind / reflection_against;
+   (2) the ray-geometry record holds conventional_inc_angle(1..n) — the LAST interface included,
+       which a path longer than the ray geometry reads — and conventional_out_angle(0..n-1). *)
 From Coq Require Import String.
 From Coq Require Import List ZArith Arith Lia.
 From Arim Require Import Model.PathReverse Proofs.PathReverseProofs Proofs.PathReverseGeomProofs.
@@ -74,8 +82,11 @@ Theorem beamspread_loop_is_kernel : forall T (N : Num T) (rg : raygeom T) n, rg_
   beamspread_idx N rg = Ok (beamspread N (rg_vel rg) (rg_leg rg) (rg_inc rg)).
 Proof. exact @beamspread_idx_eq. Qed.
 
+(* changed by repair (2): the kernel takes the angles the loop reads, conventional_inc_angle(1..n-1)
+   = rg_inc_interior rg (rg_inc rg had exactly these entries before; in the direct kernel above the
+   additional last angle is ignored by gamma_list) *)
 Theorem reverse_beamspread_loop_is_kernel : forall T (N : Num T) (rg : raygeom T) n, rg_wf rg n ->
-  reverse_beamspread_idx N rg = Ok (reverse_beamspread N (rg_vel rg) (rg_leg rg) (rg_inc rg)).
+  reverse_beamspread_idx N rg = Ok (reverse_beamspread N (rg_vel rg) (rg_leg rg) (rg_inc_interior rg)).
 Proof. exact @reverse_beamspread_idx_eq. Qed.
 
 Theorem attenuation_loop_is_kernel : forall T (N : Num T) (p : ppath T) rg n frequency,
@@ -84,6 +95,9 @@ Theorem attenuation_loop_is_kernel : forall T (N : Num T) (p : ppath T) rg n fre
   = Ok (attenuation N (att_coeffs_of_path p frequency) (rg_leg rg)).
 Proof. exact @material_attenuation_path_eq. Qed.
 
+(* changed by repair (1): `view_path` is defined only when, besides what it required before, the
+   materials in the solid role of every interior interface have a transverse velocity (the list-level
+   kernels have no None velocity; without it the loops raise, see helper_raises_without_solid_vt) *)
 Theorem transrefl_loop_is_kernel : forall T K (NK : Num K) (emb : T -> K) (p : ppath T) rg n u l,
   path_wf p rg n -> view_path emb p rg = Some l ->
   transrefl_path NK emb p rg (Some u) = lift2 (transrefl_for_path NK u l).
@@ -158,7 +172,10 @@ Proof. exact @PathReverseProofs.ray_geometry_of_reversed_path. Qed.
 (* rg_reverse is not an assumption: on the geometric model of C05 (points, local frames,
    normal-side flags, Interface.reverse swapping the flags, the reversed column of point indices)
    the legs of the reversed ray are the reversed legs and its incoming / outgoing conventional
-   angles are the outgoing / incoming ones of the ray *)
+   angles are the outgoing / incoming ones of the ray.  Changed by repair (2): rg_of_geometry reads
+   conventional_inc_angle at the interfaces 1..n and conventional_out_angle at 0..n-1 (the interior
+   interfaces only before), so `= Ok rg` also requires the inc flag of the last and the out flag of
+   the first interface, and the conclusion also covers these two angles *)
 Theorem ray_geometry_of_reversed_geometry : forall (ifs : list (RayGeom.iface (T:=R))) ray,
   length ray = length ifs -> forall vels rg,
   rg_of_geometry NumR ifs ray vels = Ok rg ->
@@ -207,9 +224,11 @@ Proof. exact material_attenuation_path_reversed. Qed.
 
 (* END TO END, as the property is observed: p with its rays, RayGeometry.from_path(p),
    p.reverse(), RayGeometry.from_path(p.reverse()) *)
+(* changed by repair (1): Path.velocities may hold None, the Fermat path's velocities are numbers:
+   `map Some (rg_vel rg) = ppath_velocities p` (it was `rg_vel rg = ppath_velocities p`) *)
 Theorem receive_side_is_transmit_side_of_reversed_path : forall (p q : ppath R) rg n,
   ppath_reverse p = Ok q -> ray_geometry_from_path p = Ok rg -> path_wf p rg n ->
-  rg_vel rg = ppath_velocities p -> reflections_in_one_medium p rg -> snell_ray rg n ->
+  map Some (rg_vel rg) = ppath_velocities p -> reflections_in_one_medium p rg -> snell_ray rg n ->
   exists rg', ray_geometry_from_path q = Ok rg' /\ rg' = rg_reverse rg /\
     (forall force_complex unit,
        same_outcome (reverse_transmission_reflection_for_path NumR p rg force_complex unit)
@@ -237,21 +256,69 @@ Theorem no_interior_interface_returns_none : forall T K (N : Num T) (NK : Num K)
   transrefl_path NK emb p rg u = Ok None /\ reverse_transrefl_path N NK emb p rg u = Ok None.
 Proof. exact @transrefl_no_interior. Qed.
 
-(* the exception of every branch of the two loop bodies *)
+(* the exception of every branch of the two loop bodies.  Changed by repair (1): in the reverse
+   body a None velocity handed to snell_angles (rev_vel_missing fr: the T mode in a fluid) raises
+   TypeError (class EHelper) before the helper looks at the unit, the kind or reflection_against —
+   and after interface.kind.reverse() of a transmission; the statement before the repair is the
+   case rev_vel_missing fr = false *)
 Theorem loop_body_error_kinds : forall T K (N : Num T) (NK : Num K) (emb : T -> K) (fr : frame (T:=T)),
   (pi_tr (fr_x fr) = None ->
      forall u, stepF_fr NK emb u fr = Raise EAssert /\ stepR_fr N NK emb u fr = Raise EAssert) /\
   (pi_tr (fr_x fr) <> None ->
      stepF_fr NK emb None fr = Raise EValue /\
-     (stepR_fr N NK emb None fr = Raise EValue \/
-      (pi_tr (fr_x fr) = Some Transmission /\ pi_kind (fr_x fr) = None /\ stepR_fr N NK emb None fr = Raise EAttr))) /\
+     stepR_fr N NK emb None fr =
+       Raise (if match pi_tr (fr_x fr), pi_kind (fr_x fr) with
+                 | Some Transmission, None => true
+                 | _, _ => false
+                 end then EAttr
+              else if rev_vel_missing fr then EHelper else EValue)) /\
   (pi_tr (fr_x fr) = Some Transmission -> pi_kind (fr_x fr) = None ->
      forall u, stepF_fr NK emb (Some u) fr = Raise ENotImpl /\ stepR_fr N NK emb (Some u) fr = Raise EAttr) /\
   (pi_tr (fr_x fr) = Some Reflection -> pi_kind (fr_x fr) = None ->
-     forall u, stepF_fr NK emb (Some u) fr = Raise ENotImpl /\ stepR_fr N NK emb (Some u) fr = Raise ENotImpl) /\
+     forall u, stepF_fr NK emb (Some u) fr = Raise ENotImpl /\
+               stepR_fr N NK emb (Some u) fr = Raise (if rev_vel_missing fr then EHelper else ENotImpl)) /\
   (pi_tr (fr_x fr) = Some Reflection -> pi_kind (fr_x fr) <> None -> pi_against (fr_x fr) = None ->
-     forall u, stepF_fr NK emb (Some u) fr = Raise EAttr /\ stepR_fr N NK emb (Some u) fr = Raise EAttr).
+     forall u, stepF_fr NK emb (Some u) fr = Raise EAttr /\
+               stepR_fr N NK emb (Some u) fr = Raise (if rev_vel_missing fr then EHelper else EAttr)) /\
+  (pi_tr (fr_x fr) <> None -> (pi_tr (fr_x fr) = Some Transmission -> pi_kind (fr_x fr) <> None) ->
+     rev_vel_missing fr = true -> forall u, stepR_fr N NK emb u fr = Raise EHelper).
 Proof. exact @step_error_kinds. Qed.
+
+(* repair (1): the number standing for a missing transverse velocity is never read — the helpers
+   as called raise when the material in the SOLID role has none, and the kernels ignore the
+   transverse velocity of the material in the FLUID role *)
+Theorem helper_raises_without_solid_vt : forall T K (NK : Num K) (emb : T -> K) k (m_inc m_oth : pmaterial T) mi mo a u,
+  (pm_vt_missing (match k with FluidSolid => m_oth | SolidFluid => m_inc end) = true ->
+     transmission_call NK emb (Some k) m_inc m_oth mi mo a (Some u) = Raise EHelper) /\
+  (pm_vt_missing (match k with FluidSolid => m_oth | SolidFluid => m_inc end) = true ->
+     reflection_call NK emb (Some k) m_inc (Some m_oth) mi mo a (Some u) = Raise EHelper).
+Proof. exact @PathReverseProofs.helper_raises_without_solid_vt. Qed.
+
+Theorem helper_ignores_fluid_role_vt : forall K (NK : Num K) (m_inc m_oth : material K) mi mo a u v,
+  transmission_at_interface NK FluidSolid (set_vt m_inc v) m_oth mi mo a u
+  = transmission_at_interface NK FluidSolid m_inc m_oth mi mo a u /\
+  transmission_at_interface NK SolidFluid m_inc (set_vt m_oth v) mi mo a u
+  = transmission_at_interface NK SolidFluid m_inc m_oth mi mo a u /\
+  reflection_at_interface NK SolidFluid m_inc (set_vt m_oth v) mi mo a u
+  = reflection_at_interface NK SolidFluid m_inc m_oth mi mo a u /\
+  reflection_at_interface NK FluidSolid (set_vt m_inc v) m_oth mi mo a u
+  = reflection_at_interface NK FluidSolid m_inc m_oth mi mo a u.
+Proof. exact @PathReverseProofs.helper_ignores_fluid_role_vt. Qed.
+
+(* repair (2): conventional_inc_angle over the whole index range — None at the first interface, a
+   value at the interfaces 1..n (the last one included), IndexError beyond — and the reversal of
+   the record restricted to the interior interfaces *)
+Theorem conventional_inc_angle_range : forall T (rg : raygeom T) n, rg_wf rg n ->
+  rg_conv_inc_angle rg 0 = Raise EAttr /\
+  (forall i, (1 <= i <= n)%nat ->
+     exists th, nth_error (rg_inc rg) (i - 1)%nat = Some th /\ rg_conv_inc_angle rg i = Ok th) /\
+  (forall i, (n < i)%nat -> rg_conv_inc_angle rg i = Raise EIndex).
+Proof. exact @conv_inc_angle_range. Qed.
+
+Theorem ray_geometry_interior_reverse : forall T (rg : raygeom T),
+  rg_inc_interior (rg_reverse rg) = rev (rg_out_interior rg) /\
+  rg_out_interior (rg_reverse rg) = rev (rg_inc_interior rg).
+Proof. exact @rg_interior_reverse. Qed.
 
 (* the loop bodies of the model with the source's indices are these frame-level bodies, and the
    first interface (in path order) that raises decides the exception of the whole call *)
@@ -270,9 +337,11 @@ Proof. exact @tr_loop_first_error. Qed.
    probe -> front wall (transmission fluid_solid) -> back wall (reflection against the couplant,
    mode conversion L -> T) -> grid.  couplant c = 1; block c_L = sqrt 2, c_T = 1.
    Angles: pi/6 in the couplant, pi/4 for L in the block, pi/6 for the reflected T. *)
-Definition ex_couplant : pmaterial R := mkPMat 1 1 0 (Some (fun _ => 2)) None.
-Definition ex_block : pmaterial R := mkPMat 3 (sqrt 2) 1 (Some (fun f => f)) None.
-Definition ex_rg : raygeom R := mkRG 4 [1; sqrt 2; 1] [1; 2; 3] [PI / 6; PI / 4] [PI / 4; PI / 6].
+Definition ex_couplant : pmaterial R := mkPMat 1 1 None (Some (fun _ => 2)) None.
+Definition ex_block : pmaterial R := mkPMat 3 (sqrt 2) (Some 1) (Some (fun f => f)) None.
+(* conventional_inc_angle(1..3) and conventional_out_angle(0..2) *)
+Definition ex_rg : raygeom R :=
+  mkRG 4 [1; sqrt 2; 1] [1; 2; 3] [PI / 6; PI / 4; PI / 6] [PI / 6; PI / 4; PI / 6].
 Definition ex_path : ppath R :=
   mkPPath [ mkPInt 0 None None None None (Some true);
             mkPInt 1 (Some FluidSolid) (Some Transmission) None (Some true) (Some false);
@@ -285,7 +354,7 @@ Lemma ex_sqrt2_pos : 0 < sqrt 2. Proof. apply sqrt_lt_R0. lra. Qed.
 
 Example end_to_end_hypotheses_satisfiable :
   exists q, ppath_reverse ex_path = Ok q /\ ray_geometry_from_path ex_path = Ok ex_rg /\
-    path_wf ex_path ex_rg 3 /\ rg_vel ex_rg = ppath_velocities ex_path /\
+    path_wf ex_path ex_rg 3 /\ map Some (rg_vel ex_rg) = ppath_velocities ex_path /\
     reflections_in_one_medium ex_path ex_rg /\ snell_ray ex_rg 3 /\ snell_path_R ex_path ex_rg.
 Proof.
   assert (Hwf : path_wf ex_path ex_rg 3) by (repeat split; cbn; lia).
@@ -324,6 +393,32 @@ Example error_branches_reachable :
   parse_unit "pressure" = None.
 Proof. repeat split; reflexivity. Qed.
 
+(* repair (1) on the example path with the T mode in the couplant and an invalid unit: the reverse
+   function raises the TypeError of snell_angles (class EHelper) where the direct one raises the
+   helper's ValueError; repair (2): a path with one more interface than the ray geometry reads the
+   incidence angle at the ray geometry's LAST interface and returns, two more give IndexError *)
+Definition ex_path_T : ppath R :=
+  mkPPath (pp_interfaces ex_path) (pp_materials ex_path) [ModeT; ModeL; ModeT] None.
+Definition ex_path_longer (extra : list (pinterface R)) : ppath R :=
+  mkPPath ([ mkPInt 0 None None None None (Some true);
+             mkPInt 1 (Some FluidSolid) (Some Transmission) None (Some true) (Some false);
+             mkPInt 2 (Some SolidFluid) (Some Reflection) (Some ex_couplant) (Some false) (Some false);
+             mkPInt 3 (Some SolidFluid) (Some Reflection) (Some ex_couplant) (Some true) (Some true) ]
+           ++ extra ++ [ mkPInt 9 None None None (Some true) None ])
+          ([ex_couplant; ex_block; ex_block; ex_block] ++ map (fun _ => ex_block) extra)
+          ([ModeL; ModeL; ModeT; ModeT] ++ map (fun _ => ModeT) extra) None.
+Example repaired_points_reachable :
+  transmission_reflection_for_path NumR ex_path_T ex_rg true "pressure" = Raise EValue /\
+  reverse_transmission_reflection_for_path NumR ex_path_T ex_rg true "pressure" = Raise EHelper /\
+  reverse_transmission_reflection_for_path NumR ex_path_T ex_rg true "stress" = Raise EHelper /\
+  ppath_velocities ex_path_T = [None; Some (sqrt 2); Some 1] /\
+  (exists v, transmission_reflection_for_path NumR (ex_path_longer []) ex_rg true "stress" = Ok (Some v)) /\
+  (exists v, reverse_transmission_reflection_for_path NumR (ex_path_longer []) ex_rg false "stress" = Ok (Some v)) /\
+  transmission_reflection_for_path NumR
+    (ex_path_longer [mkPInt 4 (Some SolidFluid) (Some Reflection) (Some ex_couplant) (Some true) (Some true)])
+    ex_rg true "stress" = Raise EIndex.
+Proof. repeat split; try (eexists; reflexivity); reflexivity. Qed.
+
 (* the hypotheses of the geometric bridge are satisfiable: see C05's reverse_hypotheses_satisfiable
    and f1_witness (Props/C05.v) for a path on which every RayGeometry entry is a value *)
 
@@ -341,5 +436,5 @@ Definition ex_ifs : list (RayGeom.iface (T:=R)) :=
     RayGeom.mkIface [ (1, 0, -1) ] [ Vec3.mid3 NumR ] (Some false) None ].
 Example bridge_hypothesis_satisfiable :
   exists rg, rg_of_geometry NumR ex_ifs [0; 0; 0]%nat [1; 2] = Ok rg /\
-             length (rg_leg rg) = 2%nat /\ length (rg_inc rg) = 1%nat /\ length (rg_out rg) = 1%nat.
+             length (rg_leg rg) = 2%nat /\ length (rg_inc rg) = 2%nat /\ length (rg_out rg) = 2%nat.
 Proof. eexists. split; [reflexivity|]. repeat split. Qed.
